@@ -233,6 +233,57 @@ impl<'buf, 'fds> Unmarshal<'buf, 'fds> for Fd {
     }
 }
 
+/// descriptor handle written through `impl Marshal for &dyn AsRawFd` (catalogue flavour H; a taken handle has no raw
+/// descriptor to offer and goes through UnixFd like `h`); read through UnixFd
+#[derive(Debug)]
+pub struct FdDyn(pub UnixFd);
+impl Tok for FdDyn {
+    fn from_tok(a: &mut Args) -> Self {
+        FdDyn(Fd::from_tok(a).0)
+    }
+    fn to_tok(&self, out: &mut Vec<String>, _s: bool) {
+        out.push("h".into());
+        out.push(fd_token(&self.0));
+    }
+}
+impl Signature for FdDyn {
+    fn signature() -> rustbus::signature::Type {
+        <&'static dyn std::os::unix::io::AsRawFd as Signature>::signature()
+    }
+    fn alignment() -> usize {
+        <&'static dyn std::os::unix::io::AsRawFd as Signature>::alignment()
+    }
+    fn sig_str(s: &mut SignatureBuffer) {
+        <&'static dyn std::os::unix::io::AsRawFd as Signature>::sig_str(s)
+    }
+    fn has_sig(s: &str) -> bool {
+        <&'static dyn std::os::unix::io::AsRawFd as Signature>::has_sig(s)
+    }
+}
+impl Marshal for FdDyn {
+    fn marshal(&self, ctx: &mut MarshalContext) -> Result<(), MarshalError> {
+        struct Raw(i32);
+        impl std::os::unix::io::AsRawFd for Raw {
+            fn as_raw_fd(&self) -> i32 {
+                self.0
+            }
+        }
+        match self.0.get_raw_fd() {
+            Some(raw) => {
+                let r = Raw(raw);
+                let d: &dyn std::os::unix::io::AsRawFd = &r;
+                d.marshal(ctx)
+            }
+            None => self.0.marshal(ctx),
+        }
+    }
+}
+impl<'buf, 'fds> Unmarshal<'buf, 'fds> for FdDyn {
+    fn unmarshal(ctx: &mut UnmarshalContext<'fds, 'buf>) -> Result<Self, UnmarshalError> {
+        UnixFd::unmarshal(ctx).map(FdDyn)
+    }
+}
+
 #[derive(Debug, Clone, PartialEq, Eq, Hash)]
 pub struct Path(pub String);
 impl Tok for Path {
